@@ -35,13 +35,15 @@ PLATFORM = ObjSpec("Platform", {
 
 
 def cands(this, angle, paths):
-    return z3.Concat(z3.If(angle, z3.Empty(z3.SeqSort(PATH.sort())), z3.Unit(this)), paths)
+    """candidate directories as (array, length): ([] if angle else [this]) ++ paths"""
+    i = z3.Int("cd!i")
+    arr = z3.Lambda([i], z3.If(angle, paths.arr[i], z3.If(i == 0, this, paths.arr[i - 1])))
+    return arr, z3.If(angle, paths.n, paths.n + 1)
 
 
 def resolves_to(name, this, angle, paths, r):
     """r (an Opt[Path] term) is Resolve(name, this, angle, paths)"""
-    cs = cands(this, angle, paths)
-    n = z3.Length(cs)
+    cs, n = cands(this, angle, paths)
     i, j = z3.Ints("rs!i rs!j")
     cand = lambda k: F.abspath(F.join(cs[k], name))     # noqa: E731
     srt = OPATH.sort()
@@ -72,7 +74,7 @@ f.modifies = ["self.found_incl"]
 @f.requires
 def _(A):
     F.install_axioms()
-    return [("memo-valid", memo_valid(A.self.found_incl, A.self._include_paths.t))]
+    return [("memo-valid", memo_valid(A.self.found_incl, A.self._include_paths))]
 
 
 @f.ensures
@@ -80,9 +82,34 @@ def _(A, R):
     r = ops.coerce(R.st, R.raw_result, OPATH)
     return [
         ("result==first-existing-candidate-in-search-order",
-         resolves_to(A.filename.t, A.this_path.t, A.is_system_include.t, A.self._include_paths.t, r.t)),
-        ("memo-valid-afterwards", memo_valid(R.new.self.found_incl, R.new.self._include_paths.t)),
+         resolves_to(A.filename.t, A.this_path.t, A.is_system_include.t, A.self._include_paths, r.t)),
+        # with the clause above and `requires memo-valid` this re-establishes memo-valid
+        # (lemma memo-update-preserves-validity below)
+        ("memo-afterwards==memo[key:=result]-or-unchanged-on-a-hit", _memo_update(A, R, r)),
+        ("search-path-unchanged", R.new.self._include_paths.eq(A.self._include_paths)),
     ]
+
+
+def _memo_update(A, R, r):
+    old, new = A.self.found_incl, R.new.self.found_incl
+    key = KEY.pack([A.filename, A.this_path, A.is_system_include]).t
+    upd = z3.And(new.dom == z3.Store(old.dom, key, z3.BoolVal(True)), new.valarr == z3.Store(old.valarr, key, r.t))
+    hit = z3.And(old.dom[key], old.valarr[key] == r.t, new.dom == old.dom, new.valarr == old.valarr)
+    return z3.Or(hit, upd)
+
+
+@lemma("memo-update-preserves-validity", props=["C04"])
+def _():
+    """memo-valid(m) and Resolve(key)==r  ==>  memo-valid(m[key:=r]); Resolve abstract"""
+    Res = z3.Function("ResolvesTo", KEY.sort(), OPATH.sort(), z3.BoolSort())
+    dom = z3.Const("lm!dom", z3.ArraySort(KEY.sort(), z3.BoolSort()))
+    val = z3.Const("lm!val", z3.ArraySort(KEY.sort(), OPATH.sort()))
+    key = z3.Const("lm!key", KEY.sort())
+    r = z3.Const("lm!r", OPATH.sort())
+    k = z3.Const("lm!k", KEY.sort())
+    valid = lambda d, v: z3.ForAll([k], z3.Implies(d[k], Res(k, v[k])))     # noqa: E731
+    hyps = [valid(dom, val), Res(key, r)]
+    return [("valid(m[key:=r])", hyps, valid(z3.Store(dom, key, z3.BoolVal(True)), z3.Store(val, key, r)))]
 
 
 def _loop_inv(L):
@@ -90,7 +117,7 @@ def _loop_inv(L):
     j = z3.Int("li!j")
     return [("no-earlier-candidate-is-a-file",
              z3.ForAll([j], z3.Implies(z3.And(0 <= j, j < L.i),
-                                       z3.Not(F.isfile(F.abspath(F.join(L.seq.t[j], name)))))))]
+                                       z3.Not(F.isfile(F.abspath(F.join(L.seq.arr[j], name)))))))]
 
 
 f.loop(0, LoopSpec(_loop_inv))
@@ -104,9 +131,9 @@ s.modifies = ["self._skip_includes"]
 @s.ensures
 def _(A, R):
     x = z3.Const("sk!x", PATH.sort())
-    old, new = A.self._skip_includes.t, R.new.self._skip_includes.t
+    old, new = A.self._skip_includes, R.new.self._skip_includes
     return [("once-list==old+{fn}",
-             z3.ForAll([x], z3.Contains(new, z3.Unit(x)) == z3.Or(z3.Contains(old, z3.Unit(x)), x == A.fn.t)))]
+             z3.ForAll([x], new.has(x) == z3.Or(old.has(x), x == A.fn.t)))]
 
 
 p = contract("codebasin.platform:Platform.process_include", props=["C04"])
@@ -116,7 +143,7 @@ p.param("self", PLATFORM).param("fn", PATH)
 @p.ensures
 def _(A, R):
     return [("process-iff-not-on-once-list",
-             R.result.t == z3.Not(z3.Contains(A.self._skip_includes.t, z3.Unit(A.fn.t))))]
+             R.result.t == z3.Not(A.self._skip_includes.has(A.fn.t)))]
 
 
 a = contract("codebasin.platform:Platform.add_include_path", props=["C04"])
@@ -126,8 +153,7 @@ a.modifies = ["self._include_paths"]
 
 @a.ensures
 def _(A, R):
-    return [("appended-in-order", R.new.self._include_paths.t
-             == z3.Concat(A.self._include_paths.t, z3.Unit(A.path.t)))]
+    return [("appended-in-order", R.new.self._include_paths.eq(A.self._include_paths.append(A.path)))]
 
 
 UNITS = [
